@@ -9,6 +9,9 @@ use vcore::report::{Args, Report};
 #[macro_use]
 pub mod subj;
 pub mod c01;
+pub mod c03;
+pub mod c05;
+pub mod c12;
 
 #[cfg(not(any(miri, verif_no_alloc_monitor)))]
 #[global_allocator]
@@ -44,6 +47,9 @@ fn main() {
             let replay = !a2.replay.is_empty();
             match a2.check.as_str() {
                 "c01" => if replay { c01::replay(&a2, &mut rep) } else { c01::run(&a2, &mut rep) },
+                "c03" => if replay { c03::replay(&a2, &mut rep) } else { c03::run(&a2, &mut rep) },
+                "c05" => if replay { c05::replay(&a2, &mut rep) } else { c05::run(&a2, &mut rep) },
+                "c12" => if replay { c12::replay(&a2, &mut rep) } else { c12::run(&a2, &mut rep) },
                 other => {
                     eprintln!("unknown check {}", other);
                     std::process::exit(2)
